@@ -89,7 +89,7 @@ def xgrant(ctx, zero=False):
             op, a = rnd_op(ctx.rnd, base, size, zero)
             prog.append({"op": op, "a": a})
         prog.append({"op": "drop", "a": {}})
-    events = run_harness("xgrant", prog, os.path.join(WORK, "xgrant_%s.ev.ndjson" % ctx.pid), pkg="vmh-xen", timeout=1800)
+    events = run_harness("xgrant", prog, os.path.join(WORK, "xgrant_%s.ev.ndjson" % ctx.pid), pkg="vmh-xen", timeout=1800, ctx=ctx)
     mism = validate_trace(ctx, os.path.join(SPEC, "Trace_XenGrant.tla"), os.path.join(SPEC, "Trace_XenGrant.%s.cfg" % ctx.pid),
                           "tr_xengrant_" + ctx.pid, events, encode=False, timeout=1800)
     for m in mism:
@@ -141,7 +141,7 @@ def xctor(ctx):
                         for foff in foffs:
                             for api in ("builder", "from_file", "build"):
                                 prog.append({"op": "build", "a": {"kind": kind, "api": api, "size": size, "flen": flen, "foff": foff, "fixed": fixed, "misalign": 0}})
-    ev_unix = run_harness("ctor", prog, os.path.join(WORK, "ctor.ev.ndjson"))
+    ev_unix = run_harness("ctor", prog, os.path.join(WORK, "ctor.ev.ndjson"), ctx=ctx)
     # Xen build: all 32 flag words x file / offset / size / device failures
     prog = []
     for mflags in range(32):
@@ -156,7 +156,7 @@ def xctor(ctx):
                                 prog.append({"op": "from_range", "a": {"mflags": mflags, "file": file, "size": size, "flen": flen, "foff": foff,
                                                                        "fixed": fixed, "fail": fail, "base": 0, "defaults": (mflags + size) % 2 == 0,
                                                                        "badflags": False}})
-    ev_xen = run_harness("xctor", prog, os.path.join(WORK, "xctor.ev.ndjson"), pkg="vmh-xen")
+    ev_xen = run_harness("xctor", prog, os.path.join(WORK, "xctor.ev.ndjson"), pkg="vmh-xen", ctx=ctx)
     events = ev_unix + ev_xen
     mism = validate_trace(ctx, os.path.join(SPEC, "Trace_XenCtor.tla"), os.path.join(SPEC, "Trace_XenCtor.C15.cfg"), "tr_xenctor", events, timeout=1800)
     for m in mism:
